@@ -10,7 +10,7 @@ from .c01 import UNIVERSE
 
 ID = "C06"
 LEVEL = "exploration"
-BUDGET = {"quick": 6000, "thorough": 1000000}
+BUDGET = {"quick": 6000, "thorough": 250000}
 RULE = (
     "case = history on a pruning HexaryTrie over an empty dict: direct ops, no-op "
     "rewrites, committed AND aborted squash_changes batches (abort point drawn), values "
